@@ -1,18 +1,26 @@
 import Hertz.Driver.Core
 import Hertz.Model.Tagexpr
+import Hertz.Model.TagexprShared
 import Hertz.Spec.Tagexpr
 /-!
 Correspondence + spec handler for C20 (validation expressions).
 
   shape <expr-hex>                                     | <shape> / ERR / PANIC:<kind> / HANG
   vd <expr-hex> <want> <wf> <cur> <k> (<name> <val>){k} | ok / rej / ERR / PANIC:<kind> / HANG
+  vdm <mode> <param> <vsel> <expr-hex> <wf> <cur> <k> (<name> <gotype>){k} <m> (<want> <val>{k}){m}
+                                                       | one of ok / rej / ERR / PANIC:<kind> / MIX:… per row, or HANG
 
 `out` is what the Lean model of the engine answers.  `spec` is evaluated on the implementation's
 answer: for `shape`, the tree the implementation built must satisfy the precedence conditions at
 every operator node (the decidable local form of `Tree.IsPrecTree`) and must have the token sequence
 of the input; for `vd`, the verdict must be the one the independent evaluator of the harness
 derived from the documented semantics (`want`), and a well-formed expression must neither fail to
-compile nor panic.
+compile nor panic.  `vdm` validates m values (rows) of ONE struct type through ONE validator - in
+sequence, interleaved at scheduling points, or from m goroutines at once (harness/c20m.go); the
+model compiles the expression once and evaluates it for every row (`validateShared`); the spec asks
+of every row what `vd` asks, and that all observations of the row agree (no `MIX:`): whether a
+value is accepted depends on the expression and on that value only, never on what else the
+validator has validated before or is validating at the same time.
 -/
 namespace Hertz.Driver.C20
 open Hertz Hertz.Driver Hertz.Tagexpr
@@ -154,6 +162,24 @@ def opCount (cs : List Char) : Nat :=
   | .ok t => t.size
   | .error _ => 0
 
+def everyOther : List String → List String
+  | a :: _ :: t => a :: everyOther t
+  | _ => []
+
+/-- rows of `vdm`: `<want> <val>{k}` each -/
+def splitRows : Nat → Nat → List String → Option (List (String × List String))
+  | _, _, [] => some []
+  | 0, _, _ => none
+  | fuel + 1, k, want :: t =>
+    if t.length < k then none else (splitRows fuel k (t.drop k)).map (fun r => (want, t.take k) :: r)
+
+structure VdmRow where
+  want : String
+  mv : Verdict × Option Val
+  i : String
+
+def parseVals (l : List String) : Option (List Val) := l.mapM parseVal
+
 def handle : Handler
   | ["shape", e], impl => do
     let cs ← hx e >>= bytesToChars
@@ -199,6 +225,46 @@ def handle : Handler
     | none =>
       pure { out := impl, spec := specOK, specNote := note, cls,
              tag := "vd:unsupported:" ++ (match v with | .unsupported w => w | _ => "") }
+  | "vdm" :: mode :: _param :: _vsel :: e :: wf :: cur :: k :: rest, impl => do
+    let cs ← hx e >>= bytesToChars
+    let k ← k.toNat?
+    let names := everyOther (rest.take (2 * k))
+    guard (names.length == k)
+    let (m, rowToks) ← match rest.drop (2 * k) with
+      | m :: t => m.toNat?.map (fun m => (m, t))
+      | [] => none
+    let rows ← splitRows rowToks.length k rowToks
+    guard (rows.length == m)
+    let envs ← rows.mapM (fun r => (parseVals r.2).map (fun vs => ({ cur, fields := names.zip vs } : Env)))
+    let model : List (Verdict × Option Val) :=
+      match tagKind cs with
+      | .noExpr => envs.map (fun _ => (.accept, none))
+      | .badQuote => envs.map (fun _ => (.compileError, none))
+      | .expr => validateShared (trimLeft cs.reverse).reverse envs
+    let wfb := wf == "1"
+    let hang := impl == ["HANG"] || impl.length != m
+    let implToks := if hang then rows.map (fun _ => "HANG") else impl
+    let per : List VdmRow := ((rows.zip model).zip implToks).map (fun x => { want := x.1.1.1, mv := x.1.2, i := x.2 })
+    let rowOK : VdmRow → Bool := fun r =>
+      r.i != "HANG" && !r.i.startsWith "MIX" && (r.want != "T" || r.i == "ok") && (r.want != "F" || r.i == "rej") &&
+        (!wfb || (!r.i.startsWith "PANIC" && r.i != "ERR"))
+    let rowKnown : VdmRow → Bool := fun r =>
+      match r.mv with
+      | (.accept, some .nil) => r.want == "F" && r.i == "ok"
+      | _ => false
+    let bad := per.filter (fun x => !rowOK x)
+    let cls := if !bad.isEmpty && bad.all rowKnown then "nil-result-accepted" else ""
+    let outToks := per.map (fun r => match verdictTok r.mv.1 with | some t => t | none => r.i)
+    let oks := model.filter (fun mv => match mv.1 with | .accept => true | _ => false) |>.length
+    let rejs := model.filter (fun mv => match mv.1 with | .reject => true | _ => false) |>.length
+    let mixc := if oks == m then "allok" else if rejs == m then "allrej" else if oks + rejs == m then "okrej" else "other"
+    let hasF : Bool := match parseExpr cs with
+      | .ok t => decide (((shapeOf t).splitOn "F[").length > 1)
+      | .error _ => false
+    pure { out := outToks, spec := bad.isEmpty,
+           specNote := "wf=" ++ wf ++ " : every row's verdict must match the documented semantics for that row's value, the same in " ++
+             "every observation (no MIX), whatever else the validator validates before or meanwhile; no panic / compile error on a well-formed expression",
+           cls, tag := "vdm:" ++ mode ++ ":" ++ (if hasF then "F" else "-") ++ ":" ++ mixc ++ ":" ++ sizeClass m ++ ":" ++ rootKind cs }
   | _, _ => none
 
 end Hertz.Driver.C20
